@@ -116,8 +116,11 @@ def oracle_link(ctx, run):
 def run(ctx):
     ctx.stage_xlate(required_assertions=ASSERTIONS)
     ctx.stage_prove(THEOREMS)
-    if not ctx.stage_build():
+    model = ctx.stage_build()
+    if not all(o["ok"] for o in ctx.obligations if o["name"].startswith("build:harness")):
         return
+    # If the model side cannot be built (e.g. the translation is broken and Gen/ is incomplete) the obligations above
+    # already fail the check; the monitors still run on the real code to look for a concrete failing input.
     words = ctx.facts.get("nlp.words") or []
     hint_words = ctx.facts.get("nlp.hintWords") or []
     ctx.oblige("facts:nlp.words", "translator", len(words) > 50, "%d table words regenerated" % len(words))
@@ -126,15 +129,16 @@ def run(ctx):
         args = {"words": ",".join(words), "hintwords": ",".join(hint_words)}
     quick = ctx.tier == "quick"
     # the analysis itself: model = real ProcessQuery / GetEnhancedKeywords, and the analysis clauses on the real outputs
-    ctx.correspond("nlp", max(len(words) + 10, 300) if quick else 6000, args=args, nontrivial=nt_nlp, shrink=False)
+    ctx.correspond("nlp", max(len(words) + 10, 1500) if quick else 8000, args=args, nontrivial=nt_nlp, shrink=False, model=model)
     if not quick and words:
         ctx.correspond("nlp", len(words) + 1, name="nlp-exhaustive-1-2-words", args=dict(args, stream="exh"), nontrivial=nt_nlp,
-                       shrink=False, sample_n=1)
+                       shrink=False, sample_n=1, model=model)
         ctx.exhaustive = True
         ctx.cov["exhaustive_scope"] = "all %d one-word and %d two-word queries over the regenerated table vocabulary" % (len(words), len(words) ** 2)
     # the engine: paired NLP-off / NLP-on searches, monitor of harness/mon_c06.go
-    r = ctx.correspond("search", 250 if quick else 6000, name="search-c06", args=dict(args, stream="c06"), nontrivial=nt_search,
-                       shrink=False)
-    oracle_link(ctx, r)
+    r = ctx.correspond("search", 1500 if quick else 8000, name="search-c06", args=dict(args, stream="c06"), nontrivial=nt_search,
+                       shrink=False, model=model)
+    if model:
+        oracle_link(ctx, r)
     # the general search stream also carries paired NLP-on/off runs with arbitrary options (fuzzy on, small limits, caps)
-    ctx.correspond("search", 150 if quick else 3000, name="search-general", nontrivial=nt_search, shrink=False, seed_offset=11)
+    ctx.correspond("search", 300 if quick else 3000, name="search-general", nontrivial=nt_search, shrink=False, seed_offset=11, model=model)
